@@ -1045,6 +1045,11 @@ func checkMutation(issuer *x509.Certificate, orig *ocsp.Response, mut []byte) (b
 	if d := sameResponse(orig, r); d != "" {
 		return true, "mutated response accepted with a different " + d
 	}
+	// the signature that was verified must be the value of the BIT STRING of the accepted bytes themselves
+	// (independent decoding with encoding/asn1): a changed unused-bits octet is a changed signature value
+	if da := dissect(mut); da != nil && string(da.sig) != string(r.Signature) {
+		return true, "mutated response accepted with a different signature bit string value"
+	}
 	return true, ""
 }
 
